@@ -951,14 +951,16 @@ func main() {
 	mon.Floor("exh:alignments", exhCount())
 	mon.Floor("hist:steps", 5000)
 	mon.Floor("cli-multi:ok", 40)
+	mon.Floor("deep-alignments", 2)
 	mon.Main("C15", []mon.Sub{
 		{Name: "witness", Quick: len(witnesses) + 3, Thorough: len(witnesses) + 3, Run: runWitness},
 		{Name: "exh", Quick: exhCount(), Thorough: exhCount(), Run: runExh},
-		{Name: "window", Quick: 900, Thorough: 12000, Run: runWindow},
-		{Name: "bigwin", Quick: 4000, Thorough: 100000, Run: runBigWin},
-		{Name: "occ", Quick: 4000, Thorough: 50000, Run: runOcc},
-		{Name: "hist", Quick: 6000, Thorough: 150000, Run: runHist},
+		{Name: "window", Quick: 600, Thorough: 12000, Run: runWindow},
+		{Name: "bigwin", Quick: 2500, Thorough: 100000, Run: runBigWin},
+		{Name: "occ", Quick: 2500, Thorough: 50000, Run: runOcc},
+		{Name: "hist", Quick: 4000, Thorough: 150000, Run: runHist},
 		{Name: "cli", Quick: 160, Thorough: 1500, Serial: true, Run: runCli},
+		{Name: "deep", Quick: 2, Thorough: 32, Run: runDeep},
 		{Name: "cli-multi", Quick: 90, Thorough: 900, Run: runCliMulti},
 	})
 }
